@@ -13,6 +13,7 @@ LENIENT = [
     '"attempt to set an attribute" in the weaker reading; only setattr / delattr are exercised',
 ]
 OPS_NAMES = '{"set", "snap", "sattr", "sitem", "sget", "smut"}'
+OPS_NAMES_PUSH = '{"set", "push", "snap", "sattr", "sitem", "sget", "smut"}'
 OPS_LAYERS = '{"set", "push", "item", "snap", "sattr", "sitem", "sget", "smut"}'
 INV = rc.INV_STATIC + ['AtMostOneLoad', 'CachedTellsTruth']
 PROP = rc.PROP_STATIC + ['SameObject']
@@ -20,8 +21,10 @@ PROP = rc.PROP_STATIC + ['SameObject']
 
 def _configs(thorough):
     if thorough:
-        return {'c17_names': rc.consts(maps=3, handles=2, layers=1, gen=1, ops=OPS_NAMES, builders=['m0'], phased=True,
+        return {'c17_names': rc.consts(maps=2, handles=2, layers=2, gen=1, ops=OPS_NAMES_PUSH, builders=['m0'], phased=True,
                                        cls='Cls_Mix'),
+                'c17_deep': rc.consts(maps=3, handles=2, layers=1, gen=1, ops=OPS_NAMES, builders=['m0'], phased=True,
+                                      cls='Cls_Two'),
                 'c17_layers': rc.consts(maps=2, handles=2, layers=2, gen=1, ops=OPS_LAYERS, builders=['m0'], phased=True,
                                         cls='Cls_Two')}
     # every lexical class of names (slots / __dict__ / mangling), flat and nested; then layered handles
